@@ -490,6 +490,7 @@ class Maker:
         tp = {'chi_max': rng.choice([1, 2, 3, 100]), 'svd_min': rng.choice([1e-12, 1e-3])}
         op = {'op': 'compress', 'method': c, 'trunc': tp}
         if c == 'variational':
+            tp['chi_max'] = rng.choice([1, 2, 2])
             if L < 3:
                 raise Infeasible()
             op['options'] = {'max_sweeps': 2, 'min_sweeps': 1, 'max_trunc_err': None}
